@@ -119,3 +119,17 @@ Theorem C02_analysis_ok_on_structured_trails : forall db tr conf r,
   (forall c, nth_error db (N.to_nat conf) = Some c -> falsified tr (cl_lits c) = true) ->
   analysis_ok db tr conf r = true /\ go_facts tr 0 r.
 Proof. exact analyze_ok. Qed.
+
+(* ---- THE solver model as a whole never reports Unsolvable for a problem that has a
+   valid selection (Cdcl/SolverSound.v): for every well-formed provider, problem,
+   fuel, activity function and completion order of the encoder's futures -- provided
+   the side conditions the model accumulates in s_ok held (analysis_ok of every
+   conflict analysis, the second component of analyze_unsolvable; evaluated on every
+   run by the whole-run correspondence, and C02_analysis_ok_on_structured_trails
+   proves the first on trails with the level structure).  The implementation equals
+   this model on every run: result, trail events, clause database, provider calls. ---- *)
+From Resolvo Require Import Cdcl.SolverSound.
+Theorem C02_solver_model_no_false_unsat : forall U P, WF U -> forall A a_ge a_conflict fuel efuel (a0 : A) order core st,
+  solve U P a_ge a_conflict fuel efuel a0 order = (OUnsat core, st) -> s_ok st = true ->
+  forall Sel, ~ valid U P Sel [].
+Proof. exact solve_no_false_unsat. Qed.
